@@ -73,6 +73,18 @@ PUT = [b'none', b'err', b'toolarge', b'ro'] + ([b'panic'] if put_panic_handled()
 CCS = [b'default', b'recache', b'nocache']
 CLASSES = [b'compile', b'unsupported', b'vanished', b'notcompile', b'cannotcache', b'cannotcache2']
 NOF = [b'none', b'none', b'none', b'none', b'none']
+# classes the server executes: gcc/clang compiles, and MSVC -Zi -Fd<existing pdb> (Cacheable::No at compile time)
+EXEC = (b'compile', b'msvc_nc')
+
+
+def dist_fail_hook():
+    """Whether the tree under test has the hook SccacheService::verif_mock_with_failing_dist_client
+    (/tmp/strengthen/C14-hook.diff): histories with `restart_distfail` are generated only then."""
+    try:
+        src = open(os.path.join(pipeline.REPO, 'src', 'server.rs'), encoding='utf-8', errors='replace').read()
+    except OSError:
+        return False
+    return 'verif_mock_with_failing_dist_client' in src
 
 
 def F(ppget=b'none', ppupd=b'none', ppput=b'none', get=b'none', put=b'none'):
@@ -170,6 +182,22 @@ def gen_table(tier, force_level=None):
                     if cc == b'default':
                         for g in GET:
                             out.append([ppmode, orcs, prefix + [req(cc=cc, ok=0, f=F(get=g))] + suffix])
+    # executed, found not cacheable only when the compile command is generated (MSVC, shared program database)
+    for ppmode in (1, 0):
+        for cc in CCS:
+            for orc in (ORC_OK, ORC_CCFAIL, ORC_PPFAIL, ORC_NOOUT):
+                out.append([ppmode, [orc, ORC_OK, ORC_OK, ORC_OK],
+                            [req(0, b'msvc_nc', cc), req(0, b'msvc_nc', cc), req(0), req(1, b'msvc_nc'), req(0, b'cannotcache'),
+                             [b'zero'], req(0, b'msvc_nc', cc, f=F(get=b'err', put=b'err')), req(0)]])
+    # the dist client cannot be created: the next executed request is answered with an error and counted as one
+    if dist_fail_hook():
+        for ppmode in (1, 0):
+            for cls in (b'compile', b'msvc_nc'):
+                for cc in CCS:
+                    out.append([ppmode, [ORC_OK] * 4,
+                                [req(0), [b'restart_distfail'], req(0, cls, cc), req(0, cls, cc), req(0)]])
+                    out.append([ppmode, [ORC_OK] * 4,
+                                [[b'restart_distfail'], req(1, b'notcompile'), req(1, b'unsupported'), req(1, cls, cc), req(1)]])
     # request classes that are not executed
     for cls in CLASSES[1:]:
         out.append([1, [ORC_OK] * 4, [req(), req(cls=cls), req(cls=cls, cc=b'recache'), req()]])
@@ -186,6 +214,7 @@ def rand_faults(rng, p_none=3):
 
 def gen_histories(rng, n, maxlen, par_weight=2, zero_weight=1):
     out = []
+    hook = dist_fail_hook()
     for _ in range(n):
         ppmode = 1 if rng.chance(3, 4) else 0
         orcs = []
@@ -201,7 +230,7 @@ def gen_histories(rng, n, maxlen, par_weight=2, zero_weight=1):
             kind = rng.weighted([('req', 12), ('disk', 3), ('restart', 1), ('zero', zero_weight), ('par', par_weight)])
             if kind == 'req':
                 t = rng.below(NTU)
-                cls = b'compile' if rng.chance(5, 6) else rng.choice(CLASSES[1:])
+                cls = b'compile' if rng.chance(5, 6) else rng.choice(CLASSES[1:] + [b'msvc_nc', b'msvc_nc'])
                 cc = rng.weighted([(b'default', 7), (b'recache', 2), (b'nocache', 2)])
                 f = rand_faults(rng) if rng.chance(1, 2) else list(NOF)
                 ok = 0 if rng.chance(1, 25) else 1
@@ -214,6 +243,12 @@ def gen_histories(rng, n, maxlen, par_weight=2, zero_weight=1):
                 else:
                     steps.append(disk(rng.choice([b'res', b'pp']), rng.choice([b'garbage', b'truncate', b'empty', b'delete']),
                                       rng.below(NTU)))
+            elif kind == 'restart' and hook and rng.chance(1, 4):
+                steps.append([b'restart_distfail'])
+                for _ in range(rng.range(1, 3)):
+                    steps.append(req(rng.below(NTU), rng.choice([b'compile', b'compile', b'msvc_nc', b'notcompile']),
+                                     rng.weighted([(b'default', 3), (b'recache', 1), (b'nocache', 1)])))
+                steps.append([b'restart', b'rw'])
             elif kind == 'restart':
                 if rng.chance(1, 3):
                     # unusable cache directory at the restart, repaired a few requests later
@@ -274,6 +309,10 @@ def gen_pokes(tier):
     for ppmode, t, width, step in plans:
         for off in range(0, span, step):
             out.append([ppmode, [ORC_OK] * 4, [req(t), [b'poke', t, off, width], req(t), req(t)]])
+    # the same for the PREPROCESSOR-cache entry of a unit (version byte, length prefixes, digests, paths, result key)
+    for ppmode_t, width, step in (((0, 1, 1), (2, 8, 3)) if tier != 'thorough' else ((0, 1, 1), (0, 8, 1), (3, 1, 1), (3, 8, 1))):
+        for off in range(0, 460, step):
+            out.append([1, [ORC_OK] * 4, [req(ppmode_t), [b'poke', ppmode_t, off, width, b'pp'], req(ppmode_t), req(ppmode_t), req(ppmode_t)]])
     # damage after a restart, and two places at once
     for k in range(0, span, 7 if tier != 'thorough' else 2):
         out.append([1, [ORC_OK] * 4, [req(1), [b'poke', 1, k, 1], [b'restart', b'rw'], req(1), req(1)]])
@@ -371,16 +410,16 @@ def check_result(t, orc, r, res, where):
     cls, ok = r[2], r[4]
     client, outs = res
     tag = client[0]
-    if tag == b'hung':
+    if tag in (b'hung', b'case_hung'):
         return ['%s: the request was never answered (hung connection)' % where]
-    if cls == b'compile' and may_panic(orc, r[5]):
+    if cls in EXEC and may_panic(orc, r[5]):
         # an internal fault: the request must still be ANSWERED — the compiler's own result, a reported fatal error,
         # or a dropped connection (the client then compiles locally); never a wrong result, never a hang
         if tag in (b'fatal', b'body_err', b'call_err'):
             return []
     if tag in (b'panic', b'call_err', b'body_err', b'bad_body', b'bad_response', b'join_err', b'signal'):
         return ['%s: request ended in %s' % (where, tag.decode())]
-    if cls != b'compile':
+    if cls not in EXEC:
         if tag not in (b'unsupported', b'unhandled'):
             vs.append('%s: a request that is not executed by the server must be handed back to the client, got %s' % (where, tag))
         return vs
@@ -408,20 +447,43 @@ def check_result(t, orc, r, res, where):
 def monitor(case, out):
     ppmode, orcs, steps = case
     vs = []
+    if isinstance(out, list) and len(out) == 1 and out[0] == [b'case_hung']:
+        return ['the history never finished: a request of it was never answered (a thread of the server is stuck)']
+    if isinstance(out, list) and len(out) == 1 and out[0] == [b'not_run_after_hangs']:
+        return []
+    if isinstance(out, list) and len(out) == 2 and out[0] == b'unparsable':
+        if out[1].startswith(b'(harness_died'):
+            return []          # a later case of a shard whose process died: the culprit is reported, not these
+        return ['the process serving this history died instead of answering: %s' % out[1][:200].decode('utf-8', 'replace')]
     if not isinstance(out, list) or len(out) != len(steps) or (out and out[0] == b'harness_error'):
         return ['malformed implementation output: %r' % (out[:2] if isinstance(out, list) else out)]
     prev_good = 0
+    distfail = False       # the dist client cannot be created: executed requests are answered with an error until a restart
     ro = False
     broken = False         # the cache directory cannot be opened
     settled = {}           # tu -> a clean successful request has populated the entry and nothing disturbed it
     poked = {}             # tu -> its entry was damaged at an arbitrary offset and has not been rewritten since
     for i, (st, ob) in enumerate(zip(steps, out)):
         kind = st[0]
+        if ob[0] == b'aborted':
+            break
         if ob[0] != kind:
             vs.append('step %d: malformed observation' % i)
             break
+        if b'stats_hung' in ob[-1:] or ob[-1] == [b'stats_hung']:
+            vs.append('step %d: the server no longer answers a statistics request (hung)' % i)
+            break
         if kind == b'midzero':
             kind, st = b'req', st[1]
+        if kind == b'req' and distfail and st[2] in EXEC:
+            # not a storage fault: the request must be ANSWERED (an error, or a dropped connection after which the
+            # client compiles locally)
+            tag = ob[1][0][0]
+            if tag in (b'hung', b'case_hung'):
+                vs.append('step %d: the request was never answered (hung connection)' % i)
+            settled[st[1]] = settled.get(st[1], False)
+            prev_good = ob[4][0]
+            continue
         if kind == b'req':
             t, cls, cc, ok, f = st[1], st[2], st[3], st[4], st[5]
             res, ppr, ccr, dsk = ob[1], ob[2], ob[3], ob[4]
@@ -435,7 +497,7 @@ def monitor(case, out):
             want = direct_of(t, orc, ok)
             if cls == b'compile' and ccr >= 1 and res[0][0] == b'finished' and res[0][1] == 0:
                 poked[t] = False
-            if cls == b'compile' and want[0] != 0 and dsk[0] > prev_good:
+            if cls in EXEC and want[0] != 0 and dsk[0] > prev_good:
                 vs.append('step %d: the result of a failed compilation was stored' % i)
             clean = (cls == b'compile' and cc == b'default' and ok == 1 and f == NOF and sane(orc) and want[0] == 0
                      and not broken and not may_panic(orc, f))
@@ -468,9 +530,15 @@ def monitor(case, out):
             prev_good = ob[1][0]
         elif kind == b'restart':
             ro = st[1] == b'ro'
+            distfail = False
+            prev_good = ob[1][0]
+        elif kind == b'restart_distfail':
+            ro = False
+            distfail = True
             prev_good = ob[1][0]
         elif kind == b'restart_broken':
             ro = False
+            distfail = False
             broken = True
             prev_good = 0
         elif kind == b'heal':
@@ -487,7 +555,7 @@ def nontrivial(case, out):
             st = st[1]
         if st[0] == b'req' and (st[5] != NOF or st[4] == 0):
             return True
-        if st[0] in (b'disk', b'restart', b'restart_broken', b'poke'):
+        if st[0] in (b'disk', b'restart', b'restart_broken', b'restart_distfail', b'poke'):
             return True
     return False
 
@@ -549,7 +617,9 @@ def neighbours(case):
 
 def compare(m, i):
     # histories with a `poke` step are judged by the monitor only (see gen_pokes)
-    return m == i or '(poke ' in i
+    # ... and a history with a request that was never answered is the monitor's business (no shrinking on a tree
+    # where every candidate costs a time-out)
+    return m == i or '(poke ' in i or 'not_run_after_hangs' in i or 'hung' in i
 
 
 def legs(tier):
